@@ -800,7 +800,7 @@ func TestC13Magnet(t *testing.T) {
 	rep.Extra["infodl_bounds"] = fmt.Sprintf("sizes=%v queues=%v kinds=%v len<=%d", sizes, queues, kinds, maxLen)
 	rep.Sample(20, fmt.Sprintf("infodownloader: size %d queue %d sequence [GotBlock(1,right) GotBlock(0,garbage) GotBlock(2,short)]", sizes[8], queues[1]))
 	if total.accepted == 0 || total.rejected == 0 || total.completed == 0 || mc.n == 0 {
-		core.HarnessError("vacuous: %+v", total)
+		rep.Vacuous("vacuous: %+v", total)
 	}
 	rep.Finish()
 }
